@@ -245,6 +245,7 @@ func CheckMain(args []string) int {
 		rules []UnitRule
 	}
 	units := map[string]*sel{}
+	var unbound []string
 	for _, r := range rules {
 		if r.Prop != prop || (r.Tier == "thorough" && tier != "thorough") {
 			continue
@@ -267,8 +268,10 @@ func CheckMain(args []string) int {
 			}
 		}
 		if !matched {
-			fmt.Printf("UNBOUND-CONTRACT: properties.map rule %s %s matches no function\n", r.Prop, r.Glob)
-			return 2
+			// a function this property's proof is anchored in no longer exists under that name (removed, renamed, inlined): the
+			// contract no longer binds. Reported as a violation of its own (there is no input to show), after the remaining units
+			// were checked - the code that took over the function's work usually fails an obligation of its own as well.
+			unbound = append(unbound, fmt.Sprintf("%s#unbound: the unit %s of properties.map matches no function (removed, renamed or inlined): its contract no longer binds", r.Glob, r.Glob))
 		}
 	}
 	if len(units) == 0 {
@@ -357,11 +360,10 @@ func CheckMain(args []string) int {
 	}
 	for _, u := range unsupported {
 		if strings.Contains(u, "UNBOUND-CONTRACT") {
-			fmt.Println(u)
-			return 2
+			unbound = append(unbound, strings.TrimSpace(strings.Replace(u, "UNBOUND-CONTRACT", "", 1))+"#unbound: the contract no longer binds")
 		}
 	}
-	if len(all) == 0 {
+	if len(all) == 0 && len(unbound) == 0 {
 		fmt.Printf("ENGINE-ERROR: property %s generated zero obligations\n", prop)
 		return 2
 	}
@@ -403,6 +405,21 @@ func CheckMain(args []string) int {
 			}
 			fmt.Printf("VIOLATION property=%s replay=%s obligation=%q status=%s%s\n", prop, path, o.Name, o.Status, suffix)
 		}
+	}
+	for _, u := range unbound {
+		viol++
+		exit = 1
+		name := u
+		if i := strings.Index(u, ":"); i > 0 {
+			name = u[:i]
+		}
+		dir := filepath.Join(outHome(), "replays", prop)
+		os.MkdirAll(dir, 0o755)
+		path := filepath.Join(dir, fmt.Sprintf("unbound-%08x.json", fnv32(u)))
+		b, _ := json.MarshalIndent(map[string]any{"property": prop, "obligation": name, "kind": "unbound-contract", "status": "undecided",
+			"solver_output": u, "replay": map[string]any{"attempted": false, "result": "no-failing-input-found", "reason": "a contract that binds to no function has no input to replay"}}, "", " ")
+		os.WriteFile(path, b, 0o644)
+		fmt.Printf("VIOLATION property=%s replay=%s obligation=%q status=undecided no-failing-input-found\n", prop, path, name)
 	}
 	for name := range known {
 		// a listed finding whose obligation no longer exists or is now proved: say so (does not fail the check)
